@@ -78,6 +78,12 @@ Print V.
 """
 have_v = os.path.exists(prefix + "_V.v")
 if have_v:
+    files["variants_runner"] = HDR + "Open Scope string_scope.\n" + open(prefix + "_R.v").read() + """
+Definition X := Eval vm_compute in numbered caseV_extra casesR.
+Definition Y := Eval vm_compute in numbered caseV_missing casesR.
+Print X.
+Print Y.
+"""
     files["variants"] = HDR + "Open Scope string_scope.\n" + open(prefix + "_V.v").read() + """
 Definition X := Eval vm_compute in numbered caseV_extra casesV.
 Definition Y := Eval vm_compute in numbered caseV_missing casesV.
@@ -149,6 +155,16 @@ if have_v:
                 nviol += 1
         elif X != "[]" or Y != "[]":
             mismatch_notes.append({"variants": "model of lint() and CLI disagree", "extra_in_cli": X[:1500], "missing_in_cli": Y[:1500]})
+if have_v:
+    rc, out = res["variants_runner"]
+    X, Y = ck.printed_value(out, "X"), ck.printed_value(out, "Y")
+    if rc != 0 or X is None or Y is None:
+        broken.append(("cases-eval variants_runner", out[-2000:]))
+    elif X != "[]" or Y != "[]":
+        mismatch_notes.append({"variants": "merge model over the results lint() receives from the runner (after Load) and CLI disagree",
+                               "extra_in_cli": X[:1500], "missing_in_cli": Y[:1500]})
+if vinfo.get("Notes") and not mismatch_notes:
+    mismatch_notes.append({"variants": "results after the runner's cache round trip differ from the direct analysis of the variant", "notes": vinfo["Notes"][:10]})
 for e in (vinfo.get("Errors") or []):
     broken.append(("variants-run", e))
 for h in (data.get("Harness") or []):
@@ -165,7 +181,7 @@ if not ck.violations:
 ck.assume += [
     "graph construction (rules 1.1-12.1 of unused.go) is not modelled: the graph the analyzer actually built enters through hook H2 (unused/verif_export.go) and is compared case by case",
     "node identities across permuted copies of a package are computed by the harness from (declaration text, rank of the position inside the declaration)",
-    "per-variant unused.Result lists are taken from lintcmd/runner (the call lint() makes); the merged output from the staticcheck binary built from the tree",
+    "per-variant unused.Result lists: ground truth from running the analyzer directly on every type-checked variant (go/packages with Tests), cross-checked against what lintcmd/runner hands to lint() after the cache round trip (Result.Load); the merged output from the staticcheck binary built from the tree, cold and warm cache",
 ]
 nv = vinfo.get("Stats", {}) if vinfo else {}
 ck.finish({
